@@ -65,6 +65,13 @@ Example C11_backoff_nonvacuous :
   Backoff_sleeps_from 100000000 (Backoff_f64_of_bits C11_two_bits) 10000000000 9 =
   [100000000; 200000000; 400000000; 800000000; 1600000000; 3200000000; 6400000000; 10000000000; 10000000000].
 Proof. vm_compute. reflexivity. Qed.
+(** The FIRST wait of every loop is already capped: with initial above T5 (nothing validates
+    initial <= T5) every separation is T5 — never the raw initial followed by a smaller one. *)
+Example C11_backoff_first_wait_capped :
+  (forall init mult t5, Backoff_sleep init mult t5 0 = Backoff_cap init t5) /\
+  Backoff_sleeps_from 4000000000 (Backoff_f64_of_bits C11_two_bits) 20000000 4 = [20000000; 20000000; 20000000; 20000000] /\
+  Backoff_sleeps_from 100000000 (Backoff_f64_of_bits C11_two_bits) 5000000 3 = [5000000; 5000000; 5000000].
+Proof. split; [reflexivity|]. vm_compute. split; reflexivity. Qed.
 Example C11_backoff_regression_2p53 :
   Backoff_next_delay_bits (Backoff_two53 + 1) Backoff_one_bits (2 ^ 62) = Backoff_two53 + 1.
 Proof. exact Backoff_regression_2p53. Qed.
